@@ -3,6 +3,7 @@ package world
 import (
 	"encoding/json"
 	"fmt"
+	"os"
 	"strings"
 	"time"
 
@@ -89,6 +90,12 @@ func (o *Outcome) Diff(p *Outcome) string {
 	}
 	for i := range o.Events {
 		if o.Events[i] != p.Events[i] {
+			if os.Getenv("GFSIM_DEBUG") != "" {
+				fmt.Fprintf(os.Stderr, "A: %s\nB: %s\n", o.Events[i], p.Events[i])
+			}
+			if len(o.Events[i]) > 300 {
+				return fmt.Sprintf("event[%d] (%s): %s", i, eventTypes(o.Events[i:i+1]), firstDiff(o.Events[i], p.Events[i]))
+			}
 			return fmt.Sprintf("event[%d]: %s vs %s", i, clip(o.Events[i], 400), clip(p.Events[i], 400))
 		}
 	}
